@@ -155,6 +155,7 @@ structure AsmCtx (t : Table) (roots : List Nat) (key : Nat → Option K) (U : Na
   hroots : All2 (fun c r => c < st.rows.size ∧ key (st.rows[c]!) = key r) rootIdx roots
   hinv : Inv st.rows.size st.refs rst
   hall : ∀ k, k < st.rows.size → 0 ≤ rst.newIndex[k]!
+  hsub : ∀ k, k < st.rows.size → ∃ r ∈ roots, ∃ j, TDesc t r j ∧ key (st.rows[k]!) = key j
 
 section
 variable {t : Table} {roots : List Nat} {key : Nat → Option K} {U : Nat → Cell} {st : ImpState K}
@@ -289,6 +290,14 @@ theorem AsmCtx.complete (c : AsmCtx t roots key U st rootIdx rst) :
   exact hkj
 
 
+/-- nothing else is stored: every file position holds a sub-cell of a root -/
+theorem AsmCtx.sub (c : AsmCtx t roots key U st rootIdx rst) (p : Nat) (hp : p < rst.out.size) :
+    ∃ r ∈ roots, ∃ j, TDesc t r j ∧ fileSem U st rst p = U j := by
+  obtain ⟨hci, _⟩ := c.atPos hp
+  obtain ⟨r, hr, j, hj, hkey⟩ := c.hsub _ hci
+  have hjl := tdesc_lt t c.fwd (c.hv.1.2.1 r hr) hj
+  exact ⟨r, hr, j, hj, (c.hk.inj _ _ (c.hi.row_ok _ hci).1 hjl).1 hkey⟩
+
 theorem range_map_get (n : Nat) (f : Nat → Nat) (p : Nat) (hp : p < n) :
     (((List.range n).map f).toArray)[p]! = f p := by
   have h1 : p < (((List.range n).map f).toArray).size := by simp [hp]
@@ -329,7 +338,9 @@ theorem orderWith_ok (t : Table) (roots : List Nat) (key : Nat → Option K) (sp
     (U : Nat → Cell) (hv : ValidLayout t roots) (hs : IsSem t U) (hk : KeyOK t key U) :
     ∃ (st : ImpState K) (rootIdx : List Nat) (rst : RState),
       orderWith t key special roots = .ok (assemble t st.rows st.cache rst rootIdx) ∧
-      AsmCtx t roots key U st rootIdx rst := by
+      AsmCtx t roots key U st rootIdx rst ∧
+      importRootsLoop t key (t.size + 1) roots ({} : ImpState K) = .ok (st, rootIdx) ∧
+      reorder (special (reweigh st.refs st.wt)) st.refs rootIdx = some rst := by
   obtain ⟨ds, hin⟩ := inputOK_of t roots key U hv hs hk
   obtain ⟨st, ps, e1, i1, _, hall, hnew⟩ := importRoots_spec t key ds hin roots hv.1.2.1 ({} : ImpState K)
     (impInv_empty t key)
@@ -337,7 +348,7 @@ theorem orderWith_ok (t : Table) (roots : List Nat) (key : Nat → Option K) (sp
   have hps : ∀ r ∈ ps, r < st.rows.size := hall.left (P := fun x => x < st.rows.size) (fun _ _ h => h.1)
   obtain ⟨rst, e2, hinv, hroots0⟩ := reorder_spec st.rows.size st.refs
     (special (reweigh st.refs st.wt)) i1.s_refs hac ps hps
-  refine ⟨st, ps, rst, ?_, ⟨hv, hs, hk, i1, hall, hinv, ?_⟩⟩
+  refine ⟨st, ps, rst, ?_, ⟨hv, hs, hk, i1, hall, hinv, ?_, fun k hk' => (hnew k (by simp) hk').2⟩, e1, e2⟩
   · unfold orderWith
     rw [e1]
     simp only
@@ -366,6 +377,10 @@ structure OrderValid (t : Table) (roots : List Nat) (o : Ordered) : Prop where
   /-- every sub-cell of the input is stored -/
   all : ∀ r ∈ roots, ∀ j, TDesc t r j →
     ∃ p, p < o.table.size ∧ Table.unfold o.table (o.table.size + 1) p = Table.unfold t (t.size + 1) j
+  /-- nothing else is stored (no unreachable rows): every position holds a sub-cell of a root. With `once` and `all`:
+  the positions are in bijection with the structurally distinct sub-cells of the roots -/
+  sub : ∀ p, p < o.table.size → ∃ r ∈ roots, ∃ j, TDesc t r j ∧
+    Table.unfold o.table (o.table.size + 1) p = Table.unfold t (t.size + 1) j
 
 theorem orderWith_valid (t : Table) (roots : List Nat) (key : Nat → Option K) (special : Array Int → Nat → Bool)
     (hv : ValidLayout t roots) (hk : KeyInjOn t key) :
@@ -379,7 +394,7 @@ theorem orderWith_valid (t : Table) (roots : List Nat) (key : Nat → Option K) 
     intro i j hi hj
     rw [hk.2 i j hi hj, hU i hi, hU j hj]
     exact ⟨fun h => Option.some.inj h, fun h => by rw [h]⟩
-  obtain ⟨st, rootIdx, rst, e, c⟩ := orderWith_ok t roots key special _ hv hs hkok
+  obtain ⟨st, rootIdx, rst, e, c, _, _⟩ := orderWith_ok t roots key special _ hv hs hkok
   refine ⟨_, e, ?_⟩
   have hsz := asm_size t st.rows st.cache rst rootIdx
   have hsem := c.isSem
@@ -393,7 +408,7 @@ theorem orderWith_valid (t : Table) (roots : List Nat) (key : Nat → Option K) 
         ((assemble t st.rows st.cache rst rootIdx).table.size + 1) p = some (fileSem (semF t (t.size + 1)) st rst p) :=
     fun p hp => unfold_of_sem _ _ hsem hfF _ p (by rw [hsz]; exact hp) (by omega)
   obtain ⟨hr1, hr2⟩ := c.roots_ok
-  refine ⟨⟨⟨?_, ?_, c.depthOK⟩, ?_⟩, ?_, ?_, ?_⟩
+  refine ⟨⟨⟨?_, ?_, c.depthOK⟩, ?_⟩, ?_, ?_, ?_, ?_⟩
   · intro p hp
     have hp' : p < rst.out.size := by rw [hsz] at hp; exact hp
     rw [get!_of_getElem _ p hp, hsz]
@@ -425,6 +440,11 @@ theorem orderWith_valid (t : Table) (roots : List Nat) (key : Nat → Option K) 
     obtain ⟨p, hp, hpj⟩ := c.complete r hr j hj
     have hjl := tdesc_lt t hft (hv.1.2.1 r hr) hj
     exact ⟨p, by rw [hsz]; exact hp, by rw [hUF p hp, hU j hjl, hpj]⟩
+  · intro p hp
+    rw [hsz] at hp
+    obtain ⟨r, hr, j, hj, hpj⟩ := c.sub p hp
+    have hjl := tdesc_lt t hft (hv.1.2.1 r hr) hj
+    exact ⟨r, hr, j, hj, by rw [hUF p hp, hU j hjl, hpj]⟩
 
 /-! ### a small instance of the hypotheses of `order_valid` (non-vacuity) -/
 
